@@ -139,9 +139,28 @@ def block(stmts, defined, indent, bytes_params):
                 raise Refuse('for over non-bytes')
             lv = s.target.id
             vs = [v for v in assigned(s.body) if v != lv]
+            # a name first bound inside the body by an unconditional top-level assignment that precedes
+            # every read of it is local to one iteration: not loop state.  It is not `defined` after the
+            # loop, so a later read fails to elaborate instead of seeing a stale value.
+            local = []
             for v in vs:
-                if v not in defined:
+                if v in defined:
+                    continue
+                ok = False
+                for st in s.body:
+                    reads = [n.id for n in ast.walk(st) if isinstance(n, ast.Name) and isinstance(n.ctx, ast.Load)]
+                    if (isinstance(st, ast.Assign) and len(st.targets) == 1 and isinstance(st.targets[0], ast.Name)
+                            and st.targets[0].id == v and v not in reads):
+                        ok = True
+                        break
+                    if v in reads or v in assigned([st]):
+                        break
+                if not ok:
                     raise Refuse('loop variable %s not initialised before the loop' % v)
+                local.append(v)
+            vs = [v for v in vs if v not in local]
+            if not vs:
+                raise Refuse('loop without state')
             bl, _ = block(s.body, defined + [lv], indent + 2, bytes_params)
             L.append('%slet %s : %s := %s.foldl (fun (st : %s) (b8 : UInt8) =>' % (pad, tup(vs), tupty(vs), it.id, tupty(vs)))
             L.append('%s    let %s := st' % (pad, tup(vs)))
